@@ -116,6 +116,19 @@ func parseWSHeader(b []byte) (*xt.Node, error) {
 
 // ---------------------------------------------------------------- (a) header printing
 
+// failWriter accepts a number of bytes and then reports an error.
+type failWriter struct{ accept int }
+
+func (f *failWriter) Write(p []byte) (int, error) {
+	if f.accept >= len(p) {
+		f.accept -= len(p)
+		return len(p), nil
+	}
+	n := f.accept
+	f.accept = 0
+	return n, errors.New("verif: the transport failed")
+}
+
 func TestC12HeaderPrinting(t *testing.T) {
 	ev.Check(t, 15000, 100000, func(rt *rapid.T) {
 		ws := rapid.Bool().Draw(rt, "ws")
@@ -141,6 +154,19 @@ func TestC12HeaderPrinting(t *testing.T) {
 			rt.Helper()
 			ev.Failf(rt, "intstream.Send(ws=%v, version=1.0, lang=%q, to=%q, from=%q, id=%q) xmlns=%s\n%s", ws, lang, toS, fromS, id, ns, fmt.Sprintf(format, args...))
 		}
+		// history: headers of other streams whose transmission failed (the
+		// transport accepted none or some of the bytes) precede this one in the
+		// process; nothing of them may turn up in this header
+		for k, nfail := 0, rapid.SampledFrom([]int{0, 0, 0, 1, 2}).Draw(rt, "failedBefore"); k < nfail; k++ {
+			fw := &failWriter{accept: rapid.SampledFrom([]int{0, 0, 1, 20, 60}).Draw(rt, "accepted")}
+			staleInfo := stream.Info{XMLNS: ns}
+			if p := ev.Guard(func() {
+				_ = intstream.Send(rw{Writer: fw}, &staleInfo, rapid.Bool().Draw(rt, "stalews"), stream.DefaultVersion, "tlh", "stale-to.example", "stale-from@stale.example/stale", "stale-stream-id")
+			}); p != "" {
+				fail("an earlier Send over a failing transport: %s", p)
+			}
+			ev.Class("print-after-failed-header-write")
+		}
 		var buf bytes.Buffer
 		info := stream.Info{XMLNS: ns}
 		var err error
@@ -148,6 +174,9 @@ func TestC12HeaderPrinting(t *testing.T) {
 			err = intstream.Send(rw{Writer: &buf}, &info, ws, stream.DefaultVersion, lang, toS, fromS, id)
 		}); p != "" {
 			fail("%s", p)
+		}
+		if bytes.Contains(buf.Bytes(), []byte("stale")) {
+			fail("the header contains bytes of a header written earlier for another stream (whose transmission failed)\nheader: %q", buf.Bytes())
 		}
 		if err != nil {
 			fail("Send failed: %v", err)
